@@ -60,8 +60,8 @@ NA = {
     'C17': "convergence of the fixed-count Heron/Halley iterations with symbolic 192-bit division is not expressible as a decidable bounded query (DESIGN.md §5)",
 }
 NA.update({
-    'C03': "not built: QuoRem's quotient and remainder loops run a data-dependent number of iterations (hundreds for large exponent gaps); the one-step induction designed in DESIGN.md Part B §1.5 was not implemented in the available time, and bounded unrolling alone does not reach the property's quantifier (the special-operand table of QuoRem is checked under C15)",
-    'C09': "not built: needs an integer model of float64/float32 rounding (float64(uint64), math.Ldexp, big.Float) in the executor that was not implemented in the available time",
+    'C03': "not built: QuoRem has three data-dependent loops (quotient digits, overflow drop, remainder continuation; hundreds of iterations for large exponent gaps). The loop-cut / one-step-induction support built for QuoWithMode (DESIGN.md A.6) is the applicable mechanism, but the invariants and hook harness for QuoRem's loops (which also track separate quotient and remainder exponents) were not written in the available time; bounded unrolling alone does not reach the property's quantifier. The special-operand table of QuoRem is checked under C15.",
+    'C09': "not built: Float64/Float32/Float need an integer model of binary floating-point rounding (float64(uint64), math.Ldexp, big.Float) in the executor, which does not exist; only FromFloat64's exact region (no div10 truncation, binary exponents up to about 2^245 and down to about 2^-86) would be a per-exponent linear-arithmetic query, and claiming the property on that fragment alone would misstate the coverage",
     'C18': "not built: only the special-case ladder would be within reach (the general path is log/mul/exp arithmetic, see C16); the ladder harness was not completed in the available time",
 })
 PENDING = "not built in this session"
